@@ -57,6 +57,14 @@ func c12E2ECase(c *vf.Ctx, i int, mu *sync.Mutex) {
 			lc.remote = true
 			lc.maxjobs = 1 + i%3
 		}
+		// cluster mode with a saturated --maxjobs: a splitting stage mapped over a
+		// run-time collection (skeleton 4) whose joins are slow, so that joins
+		// are still running while chunks of the other forks wait for a slot
+		slowJoin := i%6 == 2
+		if slowJoin {
+			lc.remote = true
+			lc.maxjobs = 2
+		}
 		cfg := pgen.DefaultConfig()
 		cfg.PFileTypes = 5
 		cfg.PMapCall = 60
@@ -67,6 +75,10 @@ func c12E2ECase(c *vf.Ctx, i int, mu *sync.Mutex) {
 		cfg.PDisabled = 10
 		cfg.SrcFor = vrun.ProbeSrc(c.BuildDir)
 		p := pgen.Generate(seed, cfg)
+		if slowJoin {
+			cfg.ForceSplit = true
+			p = pgen.Template(4, seed, cfg)
+		}
 		// hungry and fractional requests, some above the limit (clamped)
 		reqs := []float64{0.5, 1, 1.5, 2, 3, 8, -1}
 		for k, st := range p.Stages {
@@ -91,6 +103,11 @@ func c12E2ECase(c *vf.Ctx, i int, mu *sync.Mutex) {
 			s.ChunkChoices = []int{1, 2, 3, 5}
 			// chunks ask for their own resources
 			s.Rules = []pgen.Rule{{Phase: "split", Threads: reqs[i%5], MemGB: reqs[(i+2)%5]}}
+			if slowJoin {
+				s.LenChoices = []int{3}
+				s.ChunkChoices = []int{3, 4}
+				s.Rules = append(s.Rules, pgen.Rule{Phase: "join", DelayBeforeMs: 4500}, pgen.Rule{Phase: "main", DelayBeforeMs: 300})
+			}
 		})
 		if err != nil {
 			return
